@@ -456,11 +456,12 @@ def job_attenuation(j, seed):
     sc, atoms, mat = _load()
     fresh_run()
     obs, cands = [], []
-    case = {'kind': 'attenuation'}
+    lam_dtype = j if isinstance(j, str) else 'float64'
+    case = {'kind': 'attenuation', 'wavelength_dtype': lam_dtype}
     ss = sym_scalar('sigma_s', 'barn')
     sa = sym_scalar('sigma_a', 'barn')
     n = sym_scalar('n', sym_unit('n', '1/m**3'))
-    lam = sym_scalar('lam', sym_unit('lam', 'm'))
+    lam = sym_scalar('lam', sym_unit('lam', 'm'), lam_dtype)
     sp = atoms.ScatteringParams(isotope='X', total_scattering_cross_section=ss, absorption_cross_section=sa)
     m = mat.Material(scattering_params=sp, effective_sample_number_density=n)
     paths = C.explore(lambda: m.attenuation_coefficient(lam))
@@ -474,7 +475,7 @@ def job_attenuation(j, seed):
     with C.oracle():
         ref = Fraction(1.7982) * Fraction(1, 10**10)  # the double 1.7982 (angstrom) in m
         exp = si_value(n) * (si_value(ss) + si_value(sa) * si_value(lam) / ref)
-    ob = C.prove('attenuation: mu = n (sigma_s + sigma_a lambda / 1.7982 A)', si_value(mu) == exp)
+    ob = C.prove(f'attenuation[{lam_dtype} wavelength]: mu = n (sigma_s + sigma_a lambda / 1.7982 A)', si_value(mu) == exp)
     obs.append(ob_dict(ob))
     if ob.status == 'violated':
         cands.append(('C20:attenuation', case, '1/v law'))
@@ -498,7 +499,7 @@ def run(chk):
     run_jobs(chk, job_row, list(range(8)))
     run_jobs(chk, job_lookup, [1, 2, 3])
     run_jobs(chk, job_atom, [0])
-    run_jobs(chk, job_attenuation, [0])
+    run_jobs(chk, job_attenuation, ['float64', 'float32', 'int64'])
     # complete enumeration of the bundled tables through the real lookups (real-scipp process); labelled enumeration, not a solver result
     import json, os, subprocess
     from .common import PY, VERIF
@@ -642,10 +643,16 @@ def replay_real(case):
     elif kind == 'attenuation':
         sp = atoms.ScatteringParams.for_isotope('V')
         n = sc.scalar(0.07, unit='1/angstrom**3')
-        for lam in (sc.scalar(1.0, unit='angstrom'), sc.scalar(0.25, unit='nm')):
+        ldt = case.get('wavelength_dtype', 'float64')
+        lams = (sc.scalar(1.0, unit='angstrom'), sc.scalar(0.25, unit='nm'))
+        if ldt.startswith('int'):
+            lams = (sc.scalar(3, unit='angstrom', dtype=ldt), sc.scalar(2, unit='nm', dtype=ldt), sc.scalar(250, unit='pm', dtype=ldt))
+        elif ldt == 'float32':
+            lams = (sc.scalar(1.5, unit='angstrom', dtype=ldt), sc.scalar(0.25, unit='nm', dtype=ldt))
+        for lam in lams:
             mu = Material(scattering_params=sp, effective_sample_number_density=n).attenuation_coefficient(lam)
-            exp = 0.07e30 * (sp.total_scattering_cross_section.value + sp.absorption_cross_section.value * lam.to(unit='angstrom').value / 1.7982) * 1e-28
+            exp = 0.07e30 * (sp.total_scattering_cross_section.value + sp.absorption_cross_section.value * lam.to(unit='angstrom', dtype='float64').value / 1.7982) * 1e-28
             got = sc.values(mu).to(unit='1/m').value
-            if not np.isclose(got, exp, rtol=1e-12):
-                bad.append(f'attenuation {got} vs {exp}')
+            if not np.isclose(got, exp, rtol=1e-12 if ldt != 'float32' else 1e-6):
+                bad.append(f'attenuation for wavelength {lam.value} {lam.unit} ({ldt}): {got} vs {exp}')
     return {'reproduced': bool(bad), 'detail': '; '.join(bad[:3])}
